@@ -22,7 +22,7 @@ from torch.nn.modules.module import (
 from torch.overrides import TorchFunctionMode
 
 from .nn import QModuleMixin
-from .tensor import QBytesTensor, QTensor, axis_to_dim, dtype_info, qint8, qtype
+from .tensor import QBytesTensor, QTensor, axis_to_dim, dtype_info, qint8, qtype, quantize_activation
 
 
 __all__ = ["Calibration", "absmax_scale"]
@@ -144,8 +144,12 @@ class Calibration(TorchFunctionMode):
         output,
     ):
         if isinstance(module, (QModuleMixin)) and module.activation_qtype is not None:
-            # Re-evaluate raw module output
-            qoutput = module.qforward(input[0])
+            # Re-evaluate raw module output (on the input the module computes with: a quantized input of another
+            # qtype, or quantized per-axis, is requantized by the module first)
+            qinput = input[0]
+            if isinstance(qinput, QBytesTensor) and (qinput.qtype != module.activation_qtype or qinput.axis is not None):
+                qinput = quantize_activation(qinput.dequantize(), qtype=module.activation_qtype, scale=module.input_scale)
+            qoutput = module.qforward(qinput)
             if isinstance(qoutput, QBytesTensor):
                 qoutput = qoutput.dequantize()
             # Evaluate the optimal scale per-tensor and update output scale
